@@ -545,7 +545,9 @@ example : (step (run (C03_example.take 14)) (.frameLabel 0 0 none .other 0)).2 =
     (step (run (C03_example.take 15)) (.frameLabel 0 1 (some (some 0, some 3, none)) (.sub 1 1) 1)).2 = .h [0, 1] ∧
     (step (run (C03_example.take 16)) (.frameAddr 0 (.abs .ip 20) (.catVal "JS" 8) 0)).2 = .h [0, 2] ∧
     (step (run (C03_example.take 18)) (.nativeSymbol 0 0 ⟨32, none, "x"⟩)).2 = .h [0, 1] ∧
-    (step (run (C03_example.take 19)) (.frameSym 0 (.rel .ip 0 33) none (0, 1) none none none 2 (.cat 1) 0)).2 = .h [0, 3] := by
+    (step (run (C03_example.take 19)) (.frameSym 0 (.rel .ip 0 33) none (0, 1) none none none 2 (.cat 1) 0)).2 = .h [0, 3] ∧
+    (step (run (C03_example.take 21)) (.stack 0 (0, 1) (some (0, 0)))).2 = .h [0, 1] ∧
+    (step (run (C03_example.take 22)) (.stackFrames 0 [(0, 0), (0, 1), (0, 2), (0, 3)])).2 = .h [0, 3] := by
   decide
 -- the call with a frame of another thread is rejected
 set_option maxRecDepth 8192 in
